@@ -266,7 +266,7 @@ Proof.
     destruct (bank_send (s_bank s) u MODULE (mk_coins raw)); [|discriminate]. inversion C; subst s'; clear C.
     intros g1 Hi P Hf. cbn [s_gauges s_fin] in *. apply set_gauge_in in Hi. destruct Hi as [->|Hi]; [|apply Fe; auto].
     cbn [g_id g_perp g_filled g_n] in *. destruct (get_gauge_some _ _ _ G) as [_ Hi0]. apply (Fe g0 Hi0 P Hf).
-  - unfold create_lock in H. destruct (amt <=? 0); [discriminate|]. inversion H; subst. apply Same; reflexivity.
+  - unfold create_lock in H. destruct ((amt <=? 0) || (u <? 0)); [discriminate|]. inversion H; subst. apply Same; reflexivity.
   - unfold add_to_lock in H. destruct (find_lock (s_locks s) id); [|discriminate]. destruct (amt <=? 0); [discriminate|].
     inversion H; subst. apply Same; reflexivity.
   - unfold begin_unlock in H. destruct (find_lock (s_locks s) id) as [l|]; [|discriminate].
@@ -275,6 +275,7 @@ Proof.
   - unfold withdraw in H. destruct (find_lock (s_locks s) id) as [l|]; [|discriminate].
     destruct (negb (l_unl l)); [discriminate|]. destruct (s_now s <? l_end l); [discriminate|]. inversion H; subst. apply Same; reflexivity.
   - unfold set_receiver in H. destruct (find_lock (s_locks s) id) as [l|]; [|discriminate].
+    destruct (to <? 0); [discriminate|].
     cbv zeta in H. match type of H with context [if ?c then Err E_LOCK else _] => destruct c end; [discriminate|].
     inversion H; subst. apply Same; reflexivity.
   - inversion H; subst. apply Same; reflexivity.
